@@ -86,7 +86,7 @@ func freePort() string {
 
 // startB starts the binary. register=false: the discovery service accepts the
 // registration request but never calls back, so the server holds no secret.
-func startB(flags string, register bool) (*bProc, error) {
+func startB(flags string, register bool, extraEnv ...string) (*bProc, error) {
 	bin, err := buildBinary()
 	if err != nil {
 		return nil, err
@@ -143,6 +143,7 @@ func startB(flags string, register bool) (*bProc, error) {
 		"HAGALL_LOG_LEVEL=error", "HAGALL_FRAME_DURATION=5ms", "HAGALL_FEATURE_FLAGS=" + flags,
 		"HAGALL_CLOCK_CHECKER_INITIAL_DELAY=1h", "HOME=" + os.TempDir(), "PATH=" + os.Getenv("PATH"),
 	}
+	p.cmd.Env = append(p.cmd.Env, extraEnv...)
 	p.logf, _ = os.CreateTemp("", "hagall-b-*.log")
 	p.cmd.Stdout, p.cmd.Stderr = p.logf, p.logf
 	if err := p.cmd.Start(); err != nil {
@@ -750,4 +751,120 @@ func rawWrite(ws *websocket.Conn, b []byte) {
 		websocket.Message.Send(ws, payload)
 		b = b[hdr+4+n:]
 	}
+}
+
+
+// ---------------------------------------------------------------------------
+// C08 through the binary: a client that goes silent is dropped after the
+// configured idle timeout (HAGALL_CLIENT_IDLE_TIMEOUT reaches the handler), a
+// client that keeps talking is not. Real time; generous slack; only the
+// direction "silent for more than timeout + slack and still there" fails.
+
+func TestC08BinaryIdle(t *testing.T) {
+	col := NewCollector("C08", "binidle", "the real binary started with HAGALL_CLIENT_IDLE_TIMEOUT = 700/1000/1500 ms (drawn): a witness that pings every 200 ms and a client that joins the witness's session, optionally adds an entity, sends 0-3 further requests and then goes silent; the silent client's departure (leave broadcast, entity delete) must reach the witness and its TCP connection must be closed by the server within timeout + 3 s, the witness itself must never be dropped and must have all pings answered; non-trivial = every distinct drawn case")
+	t.Cleanup(col.Write)
+	rapid.Check(t, func(rt *rapid.T) {
+		idle := pick(rt, "idle_ms", []int{700, 1000, 1500})
+		owns := uni(rt, "owns", 2) == 0
+		extra := uni(rt, "extra_requests", 4)
+		p, err := startB("", true, fmt.Sprintf("HAGALL_CLIENT_IDLE_TIMEOUT=%dms", idle))
+		if err != nil {
+			rt.Skip("inconclusive: " + err.Error())
+		}
+		defer p.stop()
+		tok := p.validToken()
+		ts := func() *timestamppb.Timestamp { return timestamppb.Now() }
+		witness, err := p.dial([]string{"header"}, tok)
+		if err != nil {
+			rt.Skip("dial failed")
+		}
+		defer witness.Close()
+		wsSend(witness, &hagallpb.ParticipantJoinRequest{Type: TJoinReq, Timestamp: ts(), RequestId: 1})
+		rx, ok := wsUntil(witness, TJoinResp, 5*time.Second)
+		if !ok {
+			rt.Skip("witness join not answered")
+		}
+		sid := rx[len(rx)-1].M.(*hagallpb.ParticipantJoinResponse).SessionId
+		silent, tcp, err := p.dialRaw([]string{"header"}, tok)
+		if err != nil {
+			rt.Skip("dial failed")
+		}
+		defer tcp.Close()
+		wsSend(silent, &hagallpb.ParticipantJoinRequest{Type: TJoinReq, Timestamp: ts(), RequestId: 2, SessionId: sid})
+		rx, ok = wsUntil(silent, TJoinResp, 5*time.Second)
+		if !ok {
+			rt.Skip("join not answered")
+		}
+		spid := rx[len(rx)-1].M.(*hagallpb.ParticipantJoinResponse).ParticipantId
+		if owns {
+			wsSend(silent, &hagallpb.EntityAddRequest{Type: TEntityAddReq, Timestamp: ts(), RequestId: 3})
+			wsUntil(silent, TEntityAddResp, 5*time.Second)
+		}
+		for i := 0; i < extra; i++ {
+			wsSend(silent, &hagallpb.Request{Type: TPingReq, Timestamp: ts(), RequestId: uint32(10 + i)})
+			wsUntil(silent, TPingResp, 2*time.Second)
+		}
+		silentSince := time.Now()
+		// the silent client keeps READING (it is idle, not stalled): note when the server closes it
+		closed := make(chan time.Time, 1)
+		go func() {
+			for {
+				var b []byte
+				if err := websocket.Message.Receive(silent, &b); err != nil {
+					closed <- time.Now()
+					return
+				}
+			}
+		}()
+		deadline := silentSince.Add(time.Duration(idle)*time.Millisecond + 3*time.Second)
+		gotLeave, gotDelete, pings, pongs := false, !owns, 0, 0
+		for time.Now().Before(deadline) && !(gotLeave && gotDelete) {
+			pings++
+			wsSend(witness, &hagallpb.Request{Type: TPingReq, Timestamp: ts(), RequestId: uint32(1000 + pings)})
+			until := time.Now().Add(200 * time.Millisecond)
+			for time.Now().Before(until) {
+				r, err := wsRecv(witness, time.Until(until))
+				if err != nil {
+					if ne, ok := err.(net.Error); ok && ne.Timeout() {
+						break
+					}
+					if err != io.EOF && !strings.Contains(err.Error(), "reset") && !strings.Contains(err.Error(), "closed") {
+						continue // a message this client does not decode: not a lost connection
+					}
+					col.Violations++
+					saveCase("C08", map[string]any{"idle_ms": idle, "owns": owns, "extra": extra})
+					rt.Fatalf("C08 violated: the witness, which pings every 200 ms, lost its connection (%v) with idle timeout %d ms", err, idle)
+				}
+				switch m := r.M.(type) {
+				case *hagallpb.ParticipantLeaveBroadcast:
+					if m.ParticipantId == spid {
+						gotLeave = true
+					}
+				case *hagallpb.EntityDeleteBroadcast:
+					gotDelete = true
+				}
+				if r.T == TPingResp {
+					pongs++
+				}
+			}
+		}
+		col.Case(fmt.Sprintf("%d/%v/%d", idle, owns, extra), true, map[string]int{fmt.Sprintf("idle_%dms", idle): 1, "owns_entity": b2i(owns)}, func() any {
+			return map[string]any{"idle_ms": idle, "owns": owns, "extra": extra, "dropped_after_ms": time.Since(silentSince).Milliseconds()}
+		})
+		if !gotLeave || !gotDelete {
+			col.Violations++
+			saveCase("C08", map[string]any{"idle_ms": idle, "owns": owns, "extra": extra})
+			rt.Fatalf("C08 violated: a client silent for %v with HAGALL_CLIENT_IDLE_TIMEOUT=%dms is still in its session (leave relayed: %v, entity delete relayed: %v)", time.Since(silentSince).Round(time.Millisecond), idle, gotLeave, gotDelete)
+		}
+		select {
+		case <-closed:
+		case <-time.After(2 * time.Second):
+			col.Violations++
+			rt.Fatalf("C08 violated: the idle client was removed from its session but its connection is still open 2 s later")
+		}
+		if pongs < pings-2 {
+			col.Violations++
+			rt.Fatalf("C08 violated: the witness got %d answers to %d pings", pongs, pings)
+		}
+	})
 }
